@@ -3,6 +3,7 @@ package checks
 import (
 	"bufio"
 	"bytes"
+	"fmt"
 	"crypto/sha1"
 	"os"
 	"path/filepath"
@@ -320,6 +321,71 @@ func e1EncryptedFileSeeds() []e1Seed {
 			}
 			t.Children, t.Saio, t.Saiz = keep, nil, nil
 		})
+	}
+	// two protected tracks in one moof, with different per-sample IV sizes / schemes (state carried from one traf to the
+	// next in the file decoders): the second file's trak, trex and traf are moved into the first as track 2
+	encOf := func(codec, scheme, iv string) []byte {
+		cs := &c06Case{Codec: codec, Scheme: scheme, IV: iv, Key: c06Keys[0], Frags: frags}
+		f, ok := c06Build(cs)
+		if !ok {
+			return nil
+		}
+		enc, err := c06Encrypt(f.All(), cs)
+		if err != nil {
+			return nil
+		}
+		return enc
+	}
+	type tv struct{ codec, scheme, iv string }
+	tvs := []tv{{"avc", "cenc", c06IVs[3]}, {"avc", "cbcs", c06IVs[1]}, {"avc", "cenc", c06IVs[1]}, {"aac", "cbcs", c06IVs[1]}}
+	for i, a := range tvs {
+		for j, b := range tvs {
+			if i == j {
+				continue
+			}
+			ea, eb := encOf(a.codec, a.scheme, a.iv), encOf(b.codec, b.scheme, b.iv)
+			if ea == nil || eb == nil {
+				continue
+			}
+			fa, err1 := mp4.DecodeFile(bytes.NewReader(ea))
+			fb, err2 := mp4.DecodeFile(bytes.NewReader(eb))
+			if err1 != nil || err2 != nil || fa.Init == nil || fb.Init == nil || len(fa.Segments) == 0 || len(fb.Segments) == 0 {
+				continue
+			}
+			trak, trex, traf := fb.Init.Moov.Trak, fb.Init.Moov.Mvex.Trex, fb.Segments[0].Fragments[0].Moof.Traf
+			trak.Tkhd.TrackID, trex.TrackID, traf.Tfhd.TrackID = 2, 2, 2
+			fa.Init.Moov.AddChild(trak)
+			fa.Init.Moov.Mvex.AddChild(trex)
+			fa.Init.Moov.Mvhd.NextTrackID = 3
+			moof := fa.Segments[0].Fragments[0].Moof
+			if err := moof.AddChild(traf); err != nil {
+				continue
+			}
+			// the moved traf's saio must point at its senc data in the new moof
+			pos := uint64(8)
+			for _, ch := range moof.Children {
+				if ch != mp4.Box(traf) {
+					pos += ch.Size()
+					continue
+				}
+				pos += 8
+				for _, tc := range traf.Children {
+					if tc.Type() == "senc" {
+						break
+					}
+					pos += tc.Size()
+				}
+				break
+			}
+			if traf.Saio != nil && len(traf.Saio.Offset) == 1 {
+				traf.Saio.Offset[0] = int64(pos + 16)
+			}
+			var w bytes.Buffer
+			fa.FragEncMode = mp4.EncModeBoxTree
+			if err := fa.Encode(&w); err == nil {
+				out = append(out, e1Seed{Name: fmt.Sprintf("gen/enc-2tracks %s-%s-iv%d + %s-%s-iv%d", a.codec, a.scheme, len(a.iv)/2, b.codec, b.scheme, len(b.iv)/2), Type: "file", Bytes: w.Bytes()})
+			}
+		}
 	}
 	return out
 }
